@@ -312,6 +312,18 @@ def routing_edges(seed: int, n: int) -> List[List[dict]]:
             b += [snd("b", data(1234, 7, 0, 0, 3)), rnd("", ["b"], ["b", "c"])]
             b += [snd("b", sub(15, 7, 777)), rnd("", ["b"], ["b", "c"])]
             out.append(b)
+    # (6) message type id 0 (EXIT) is a type like any other for the manager: individual subscription, pause / resume, addressed
+    for addressed in (0, 21):
+        b = monitor_setup()
+        names = ["p1", "p2", "s", "c"]
+        for c, mid in (("p1", 21), ("p2", 22), ("s", 5)):
+            b += [opn(c), rnd(c), snd(c, con2(mid, 0, c)), rnd("", [c], names)]
+        b += [snd("p1", sub(15, 21, 0)), rnd("", ["p1"], names), snd("p1", sub(15, 21, 1234)), rnd("", ["p1"], names)]
+        b += [snd("p2", sub(15, 22, ALL)), rnd("", ["p2"], names)]
+        b += [snd("s", data(0, 5, addressed, 0, 1)), rnd("", ["s"], names), snd("s", data(1234, 5, 0, 0, 2)), rnd("", ["s"], names)]
+        b += [snd("p1", sub(85, 21, 0)), rnd("", ["p1"], names), snd("s", data(0, 5, 0, 0, 3)), rnd("", ["s"], names)]
+        b += [snd("p1", sub(86, 21, 0)), rnd("", ["p1"], names), snd("s", data(0, 5, 0, 0, 4)), rnd("", ["s"], names)]
+        out.append(b)
     # (4) several instances share one module id (allow_multiple): a message addressed to that id reaches every instance
     for nsub in (2, 3):
         for leave in (None, "last", "first"):
